@@ -1,6 +1,7 @@
 CONSTANTS
   Source = "tables"
   Scale = "full"
+  Reader = "asis"
 INIT Init
 NEXT Next
 INVARIANT EmitTables
